@@ -22,14 +22,19 @@ from .common import case, guarded, ordinal_instance, weak_orders, rand_weak_orde
 
 ID = "C12"
 RULE = ("every set of 1-3 distinct strict orders over 3 alternatives (dynamic programme on all, ILPs on a budgeted "
-        "subset), sampled sets of 1-3 weak orders over 3 alternatives; random soc/toc profiles with m <= 5 (thorough 6) "
-        "alternatives and n <= 5 distinct orders: planted single-peaked + 0-3 spoiler votes, planted + 0-2 spoiler "
-        "alternatives, tied tops, uniformly random; objective = verified reference optimum, certificate through the "
-        "verified checker; larger instances (m <= 10, n <= 8): certificates + lower bound from an embedded core + upper "
-        "bound from the planted certificate. non-trivial = reference optimum (voters or alternatives) >= 1")
+        "subset in quick), sets of 1-3 weak orders over 3 alternatives; random soc/toc profiles with m <= 5 (thorough 6) "
+        "alternatives and n <= 5 distinct orders: planted single-peaked + 0-3 spoiler votes, planted + 0-3 spoiler "
+        "alternatives, tied tops, uniformly random; plus strict profiles m <= 6 for the dynamic programme alone; "
+        "objective = verified reference optimum (min_vot_del / min_alt_del), len(deleted) = objective, certificate "
+        "through the verified checker (cert_vot / cert_alt), ILP = DP on strict profiles; larger instances (ILPs: "
+        "7 <= m <= 10, n <= 8; DP: m <= 12): certificates + lower bound from the best of 3 embedded 5-alternative "
+        "cores (opt_restrict_mono) + upper bound from the planted certificate (cert_valid_bound). ILP budget: 150 "
+        "calls quick, 2000 thorough. non-trivial = reference optimum (voters or alternatives) >= 1 "
+        "(large instances: some reported optimum >= 1)")
 EXHAUSTIVE = {"quick": "k_alternative_deletion on every set of 1-3 distinct strict orders over 3 alternatives",
               "thorough": "k_alternative_deletion and both ILPs on every set of 1-3 distinct strict orders over 3 "
-                          "alternatives; both ILPs on every set of 1-2 distinct weak orders over 3 alternatives"}
+                          "alternatives; both ILPs on every set of 1-2 distinct weak orders over 3 alternatives that "
+                          "contains a tie"}
 TRUSTED = ["(R) not verified, compared with the verified references min_vot_del / min_alt_del on bounded inputs and "
            "through the verified certificate checkers cert_vot / cert_alt at every size: approx_SP_voter_deletion_ILP, "
            "approx_SP_alternative_deletion_ILP (constraint builders + python-mip/CBC, max_gap 0.05), "
@@ -90,7 +95,7 @@ def canon_classes(o):
     return tuple(frozenset(c) for c in o)
 
 
-def distinct_semantic(orders, keep_first=()):
+def distinct_semantic(orders):
     out, seen = [], set()
     for o in orders:
         k = canon_classes(o)
